@@ -30,6 +30,7 @@ type Wire struct {
 	readable []byte // visible to the reader
 	held     []byte // written while hold was on, not yet visible
 	hold     bool
+	strict   bool   // a read that would block fails with ErrStarved instead
 	wclosed  bool   // writer finished: reader gets EOF after draining readable
 	rclosed  bool   // reader closed: writes fail
 	log      []byte // every byte the writer ever wrote (transcript)
@@ -49,6 +50,18 @@ func (w *Wire) SetHold(h bool) {
 	w.hold = h
 	w.mu.Unlock()
 }
+
+// SetStrict makes reads that would block fail with ErrStarved. Used once all writers are known to
+// be finished: a reader that still waits for bytes has lost some (a definite verdict, no timeout).
+func (w *Wire) SetStrict(on bool) {
+	w.mu.Lock()
+	w.strict = on
+	w.mu.Unlock()
+	w.cond.Broadcast()
+}
+
+// ErrStarved is returned by a strict wire when the reader asks for bytes that nobody will write.
+var ErrStarved = errors.New("p2psim: reader waits for bytes that were never written (stream starved)")
 
 // TakeHeld removes and returns everything written while held.
 func (w *Wire) TakeHeld() []byte {
@@ -123,6 +136,9 @@ func (w *Wire) read(p []byte) (int, error) {
 		}
 		if len(p) == 0 {
 			return 0, nil
+		}
+		if w.strict {
+			return 0, ErrStarved
 		}
 		w.cond.Wait()
 	}
